@@ -16,7 +16,7 @@ const ALL_TRAITS: [&str; 7] = ["Debug", "Default", "PartialEq", "Eq", "PartialOr
 const HELPERS: [&str; 8] = ["derive_ex", "debug", "default", "ord", "partial_ord", "eq", "partial_eq", "hash"];
 
 /// (text, placement mask: 1 type, 2 variant, 4 field)
-const POOL: [(&str, u8); 18] = [
+const POOL: [(&str, u8); 19] = [
     ("#[doc = \" doc comment\"]", 7),
     ("#[allow(unused)]", 7),
     ("#[cfg_attr(all(), allow(dead_code))]", 7),
@@ -36,9 +36,10 @@ const POOL: [(&str, u8); 18] = [
     ("#[partial_ord(reverse)]", 4),
     ("#[partial_eq(bound())]", 7),
     ("#[derive_ex(Clone(bound()))]", 6),
+    ("#[::derive_ex::derive_ex(Clone(bound()))]", 6),
 ];
 // (the crate-qualified spelling names the same attribute: a further list of the item, consumed like the others)
-const TYPE_ONLY_EXTRA: [&str; 3] = ["#[derive_ex(Debug)]", "#[derive_ex(Hash, bound(T))]", "#[derive_ex::derive_ex(Clone)]"];
+const TYPE_ONLY_EXTRA: [&str; 4] = ["#[derive_ex(Debug)]", "#[derive_ex(Hash, bound(T))]", "#[derive_ex::derive_ex(Clone)]", "#[::derive_ex::derive_ex(Clone)]"];
 
 const LISTS: [&str; 11] = ["Clone", "Debug", "Default", "PartialEq", "Ord, PartialOrd, Eq, PartialEq", "Hash", "Clone, Debug, Default", "PartialOrd, PartialEq, Hash", "Copy, Clone, Debug, Default, Ord, PartialOrd, Eq, PartialEq, Hash", "PartialOrd", "Eq"];
 const VIS: [&str; 4] = ["", "pub", "pub(crate)", "pub(in self)"];
@@ -57,6 +58,7 @@ struct Case {
 fn attr_name(a: &str) -> Option<String> {
     // single-identifier path?
     let inner = a.trim().strip_prefix("#[")?;
+    let inner = inner.strip_prefix("::").unwrap_or(inner);
     let inner = inner.strip_prefix("derive_ex::derive_ex").map(|r| format!("derive_ex{r}")).unwrap_or_else(|| inner.to_string());
     let inner = inner.as_str();
     let end = inner.find(|c: char| !(c.is_alphanumeric() || c == '_'))?;
@@ -130,7 +132,7 @@ fn gen(ch: &mut Ch, thorough: bool) -> Option<Case> {
     let mut derived = traits_of_attr(list);
     for a in &tattrs {
         if attr_name(a).as_deref() == Some("derive_ex") {
-            let inner = a.trim_start_matches("#[derive_ex::derive_ex(").trim_start_matches("#[derive_ex(").trim_end_matches(")]");
+            let inner = a.trim_start_matches("#[::derive_ex::derive_ex(").trim_start_matches("#[derive_ex::derive_ex(").trim_start_matches("#[derive_ex(").trim_end_matches(")]");
             derived.extend(traits_of_attr(inner));
         }
     }
@@ -515,7 +517,7 @@ pub fn run(ctx: &Ctx, rep: &mut Report) {
     }
     if ctx.replay.is_none() {
         // the <= 1-attribute slice through the real pipeline
-        let inputs: Vec<crate::conform::Input> = cases.iter().filter(|c| c.kind != "interleave" && !c.vector.is_empty() && c.input.matches("#[").count() <= 1 && !c.input.contains(") = 5") && !c.input.trim_start().starts_with("#[derive_ex")).map(|c| crate::conform::Input { entry: crate::expand::Entry::Attr, attr: c.attr.clone(), item: c.input.clone() }).collect();
+        let inputs: Vec<crate::conform::Input> = cases.iter().filter(|c| c.kind != "interleave" && !c.vector.is_empty() && c.input.matches("#[").count() <= 1 && !c.input.contains(") = 5") && !c.input.trim_start().starts_with("#[derive_ex") && !c.input.trim_start().starts_with("#[::derive_ex")).map(|c| crate::conform::Input { entry: crate::expand::Entry::Attr, attr: c.attr.clone(), item: c.input.clone() }).collect();
         crate::conform::validate_or_die(rep, "c14p", &inputs);
     }
 }
